@@ -31,6 +31,7 @@ file name, and know nothing of when the loader filters what.
 """
 import copy
 import keyword
+import json
 import os
 import shutil
 import sys
@@ -631,6 +632,11 @@ def _obs_suite(s):
             "suites": [_obs_suite(x) for x in s.get_suites()]}
 
 
+def via_link(tree):
+    import zlib
+    return zlib.crc32(json.dumps(tree, sort_keys=True).encode()) % 3 == 0
+
+
 def load_real(tree, rank0):
     """Write `tree` to a fresh temporary directory, load it with the real loader, return the canonical observation."""
     from lemoncheesecake.suite import builder
@@ -645,8 +651,14 @@ def load_real(tree, rank0):
         # the registry of decorated objects only grows (linear membership test): objects of earlier loads are dead
         del builder._objects_with_metadata[:]
         builder.Metadata._next_rank = rank0
+        # every third layout is reached through a symbolic link to its directory (a checkout linked into a workspace): the
+        # suites are the same whatever the spelling of the path
+        load_root = root
+        if via_link(tree):
+            load_root = root + "_link"
+            os.symlink(root, load_root)
         try:
-            suites = load_suites_from_directory(root)
+            suites = load_suites_from_directory(load_root)
             obs = {"ok": [_obs_suite(s) for s in suites]}
         except SuiteLoadingError as e:
             msg = str(e)
@@ -655,15 +667,18 @@ def load_real(tree, rank0):
                     obs = {"err": k}
                     break
             else:
-                obs = {"exc": ("SuiteLoadingError: " + msg.replace(root, "<root>"))[:220]}
+                obs = {"exc": ("SuiteLoadingError: " + msg.replace(load_root, "<root>").replace(root, "<root>"))[:220]}
         except BaseException as e:      # noqa
             if isinstance(e, KeyboardInterrupt):
                 raise
-            obs = {"exc": "%s: %s" % (type(e).__name__, str(e).replace(root, "<root>")[:200])}
+            obs = {"exc": "%s: %s" % (type(e).__name__, str(e).replace(load_root, "<root>").replace(root, "<root>")[:200])}
     finally:
         sys.dont_write_bytecode = saved
         for p in paths:
             sys.modules.pop(p, None)
+            sys.modules.pop(p.replace(root, root + "_link", 1), None)
+        if os.path.islink(root + "_link"):
+            os.remove(root + "_link")
         shutil.rmtree(root, ignore_errors=True)
     return obs
 
